@@ -40,6 +40,14 @@ type graphCase struct {
 	Expect string     `json:"expect,omitempty"` // for probes: "ok:<trace suffix>" | "error"
 	Bare   []int      `json:"bare,omitempty"`   // modules (0 = main) whose file holds 导入 lines only
 	Extra  string     `json:"extra,omitempty"`  // one more import line of main (after the others)
+	Libs   []string   `json:"libs,omitempty"`   // Libs[i]: library import line of file i ("" = none), written before its module imports
+}
+
+func (c *graphCase) lib(i int) string {
+	if i < len(c.Libs) {
+		return c.Libs[i]
+	}
+	return ""
 }
 
 func (c *graphCase) bare(i int) bool {
@@ -74,6 +82,10 @@ func clsName(mod string) string { return strings.ReplaceAll(mod, "-", "") + "型
 // moduleSource - body of module i
 func moduleSource(c *graphCase, i int) string {
 	var b strings.Builder
+	if l := c.lib(i); l != "" {
+		// a registered library may be imported by any number of files of one program
+		b.WriteString(l + "\n")
+	}
 	for k, j := range c.Edges[i] {
 		b.WriteString("导入“" + c.Names[j] + "”")
 		if len(c.Select) > i && len(c.Select[i]) > k && c.Select[i][k] != "" {
@@ -88,6 +100,10 @@ func moduleSource(c *graphCase, i int) string {
 		// nothing but imports (a comment and a blank line are no statements)
 		b.WriteString("注：本文件只有导入\n\n")
 		return b.String()
+	}
+	if c.lib(i) != "" {
+		// ... and every importer can use it
+		b.WriteString(fmt.Sprintf("令库果%d = （生成JSON：【“a” = %d】）\n", i, i))
 	}
 	if i == 0 {
 		b.WriteString("（显示：“run-main”）\n")
@@ -455,8 +471,16 @@ func TestAllGraphs(t *testing.T) {
 	var nt, n int64
 	for bits := shard; bits < total; bits += nsh {
 		c := graphFromBits(k, bits)
+		if bits%3 == 1 {
+			for i := 0; i <= k; i++ {
+				c.Libs = append(c.Libs, []string{"导入《@JSON》", "导入《@JSON》之生成JSON", "导入《@JSON》的生成JSON、解析JSON"}[(int(bits)+i)%3])
+			}
+		}
 		fails := checkGraph(c)
 		labels, nontrivial := labelsOf(c)
+		if c.Libs != nil {
+			labels = append(labels, "library-imported-by-every-file")
+		}
 		n++
 		if nontrivial {
 			nt++
@@ -506,6 +530,19 @@ func TestRandomGraphs(t *testing.T) {
 		}
 		c.Files = rapid.IntRange(0, 9).Draw(t, "files") == 0
 		labels, nt := labelsOf(c)
+		if rapid.Bool().Draw(t, "anylib") {
+			c.Libs = make([]string, k+1)
+			nl := 0
+			for i := range c.Libs {
+				c.Libs[i] = rapid.SampledFrom([]string{"", "导入《@JSON》", "导入《@JSON》之生成JSON", "导入《@JSON》的解析JSON、生成JSON"}).Draw(t, "lib")
+				if c.Libs[i] != "" {
+					nl++
+				}
+			}
+			if nl >= 2 {
+				labels = append(labels, "library-imported-by-several-files")
+			}
+		}
 		_, cyclic := reach(c)
 		// files that hold nothing but 导入 lines: their imports are loaded (and cycles through
 		// them reported) all the same. The module the probes below use keeps its body
